@@ -13,6 +13,7 @@ import (
 	"runtime/debug"
 	"strconv"
 	"strings"
+	"syscall"
 	"time"
 	"unicode/utf8"
 
@@ -64,8 +65,11 @@ const (
 	// the recursive-descent parser needs stack proportional to the nesting depth, which is a resource limit
 	// and not the subject of the property.
 	maxInput = 16 << 10
-	// watchdog is the generous per-input wall-clock bound. A hit is never a verdict (inconclusive, exit 2).
-	watchdog = 20 * time.Second
+	// watchdog is the generous per-input bound. A hit is never a verdict (inconclusive, exit 2). It is measured in
+	// CPU time of the process (one input runs at a time), so that a busy machine does not trigger it; an input that
+	// uses no CPU (deadlock) is given up after watchdogWall.
+	watchdog     = 20 * time.Second
+	watchdogWall = 10 * time.Minute
 )
 
 // evalTime is the fixed evaluation time (no wall clock inside a case).
@@ -280,7 +284,7 @@ func trimStack(st []byte) string {
 // maxDepth bounds the bracket nesting of an input. The generated parser needs time that grows faster than
 // linearly with the nesting depth (1 600 nested "p(" take about 12 s, 8 000 would take minutes), which is a
 // resource question and would only ever end in the watchdog; deeper inputs are skipped and counted.
-const maxDepth = 150
+const maxDepth = 100
 
 // nestingDepth is the largest excess of opening over closing brackets in a prefix of data.
 func nestingDepth(data []byte) int {
@@ -512,7 +516,10 @@ func execSCLazy(o *outcome, data []byte) {
 	if bytes.HasPrefix(data, []byte{0x1f, 0x8b}) {
 		variants = append(variants, variant{"gzip_raw", 3, func() (*factstore.SimpleColumnStore, error) { return factstore.NewSimpleColumnStoreFromGzipBytes(data) }})
 	}
-	if bytes.HasPrefix(data, []byte{0x28, 0xb5, 0x2f, 0xfd}) {
+	// A zstd frame header declares a window (up to 512 MiB with the decoder's defaults) that the decoder allocates at
+	// once, per reader: a 19-byte input costs half a gigabyte. That is memory use of the third-party decoder and no
+	// crash; frames declaring more than 8 MiB are not fed, otherwise fuzz workers die of memory exhaustion.
+	if bytes.HasPrefix(data, []byte{0x28, 0xb5, 0x2f, 0xfd}) && zstdDeclaredWindow(data) <= 8<<20 {
 		variants = append(variants, variant{"zstd_raw", 2, func() (*factstore.SimpleColumnStore, error) { return factstore.NewSimpleColumnStoreFromZstdBytes(data) }})
 	}
 	for _, v := range variants {
@@ -548,6 +555,33 @@ func execSCLazy(o *outcome, data []byte) {
 			return
 		}
 	}
+}
+
+// zstdDeclaredWindow reads the window size a zstd frame header announces (0 if the header is cut short).
+func zstdDeclaredWindow(data []byte) uint64 {
+	if len(data) < 6 {
+		return 0
+	}
+	fhd := data[4]
+	if fhd&0x20 == 0 { // no single segment: a window descriptor follows
+		exp, mant := uint64(data[5]>>3), uint64(data[5]&7)
+		base := uint64(1) << (10 + exp)
+		return base + base/8*mant
+	}
+	// single segment: the window is the frame content size (1, 2, 4 or 8 bytes after the dictionary id)
+	pos := 5 + []int{0, 1, 2, 4}[fhd&3]
+	n := []int{1, 2, 4, 8}[fhd>>6]
+	if len(data) < pos+n {
+		return 0
+	}
+	var v uint64
+	for i := n - 1; i >= 0; i-- {
+		v = v<<8 | uint64(data[pos+i])
+	}
+	if n == 2 {
+		v += 256
+	}
+	return v
 }
 
 func gzipBytes(data []byte) []byte {
@@ -589,10 +623,25 @@ func executeWatched(target string, data []byte) outcome {
 	go func() { done <- execute(target, data) }()
 	timer := time.NewTimer(watchdog)
 	defer timer.Stop()
-	select {
-	case o := <-done:
-		return o
-	case <-timer.C:
-		return outcome{hang: true, labels: []string{target + ":watchdog"}}
+	start, cpu0 := time.Now(), cpuTime()
+	for {
+		select {
+		case o := <-done:
+			return o
+		case <-timer.C:
+			if cpuTime()-cpu0 >= watchdog || time.Since(start) >= watchdogWall {
+				return outcome{hang: true, labels: []string{target + ":watchdog"}}
+			}
+			timer.Reset(time.Second)
+		}
 	}
+}
+
+// cpuTime is the CPU time (user + system) the process has used so far.
+func cpuTime() time.Duration {
+	var ru syscall.Rusage
+	if syscall.Getrusage(syscall.RUSAGE_SELF, &ru) != nil {
+		return 0
+	}
+	return time.Duration(ru.Utime.Nano() + ru.Stime.Nano())
 }
